@@ -32,6 +32,12 @@ fn main() {
             imp::quiet_panics();
             std::process::exit(checks::robust::rung_child(&a[2], a[3].parse().unwrap_or(8)));
         }
+        "sched" if a.len() > 6 => {
+            imp::quiet_panics();
+            let child = a[4].parse::<usize>().ok();
+            let stop = a[5].parse::<u64>().ok();
+            std::process::exit(checks::purity::sched_child(a[2].parse().unwrap_or(0), a[3].parse().unwrap_or(2), child, stop, a[6].parse().unwrap_or(200000)));
+        }
         "history" => {
             imp::quiet_panics();
             let idx: Vec<usize> = a[2..].iter().filter_map(|x| x.parse().ok()).collect();
